@@ -424,10 +424,61 @@ def _all_names(node):
     return {x.id for x in ast.walk(node) if isinstance(x, ast.Name)}
 
 
+def _module_bindings(tree):
+    """names bound at module level -> what they are:
+    ('def', node) | ('import', absolute dotted target) | ('other', node)"""
+    out = {}
+    for st in tree.body:
+        if isinstance(st, (ast.FunctionDef, ast.AsyncFunctionDef,
+                           ast.ClassDef)):
+            out[st.name] = ("def", st)
+        elif isinstance(st, ast.Assign):
+            for t in st.targets:
+                if isinstance(t, ast.Name):
+                    out[t.id] = ("other", st)
+        elif isinstance(st, ast.AnnAssign) and isinstance(
+                st.target, ast.Name):
+            out[st.target.id] = ("other", st)
+    return out
+
+
+def _abs(modname, is_pkg, level, name):
+    if level == 0:
+        return name or ""
+    parts = modname.split(".")
+    if not is_pkg:
+        parts = parts[:-1]
+    if level > 1:
+        parts = parts[: len(parts) - (level - 1)]
+    if name:
+        parts = parts + name.split(".")
+    return ".".join(parts)
+
+
+def _imports(tree, modname, is_pkg):
+    """local name -> absolute dotted target, for module-level imports"""
+    out = {}
+    for st in ast.walk(tree):
+        if isinstance(st, ast.Import):
+            for a in st.names:
+                out[a.asname or a.name.split(".")[0]] = (
+                    a.name if a.asname else a.name.split(".")[0])
+        elif isinstance(st, ast.ImportFrom):
+            base = _abs(modname, is_pkg, st.level, st.module)
+            for a in st.names:
+                out[a.asname or a.name] = f"{base}.{a.name}"
+    return out
+
+
 class Inliner:
-    def __init__(self, tree, modname, known):
+    def __init__(self, tree, modname, known, foreign=None, is_pkg=False):
         self.tree = tree
         self.modname = modname
+        self.foreign = foreign or {}    # abs module -> ForeignModule
+        self.imports = _imports(tree, modname, is_pkg)
+        self.bindings = _module_bindings(tree)
+        self.added_imports = {}
+        self.foreign_helpers = {}
         self.defs = _qualnames(tree, modname)
         self.helpers = {}
         for q, node, owner in self.defs:
@@ -466,7 +517,15 @@ class Inliner:
             for h in self.helpers.values():
                 if h.owner[0] == "mod" and h.name == f.id:
                     return h
-            return None
+            return self._foreign(self.imports.get(f.id)) \
+                if f.id not in self.bindings else None
+        if isinstance(f, ast.Attribute) and isinstance(f.value, ast.Name) \
+                and f.value.id in self.imports and \
+                f.value.id not in self.bindings and not any(
+                    f.value.id in _stored_names(fn.body)
+                    for fn in scope_chain):
+            # module.helper(...)
+            return self._foreign(f"{self.imports[f.value.id]}.{f.attr}")
         if isinstance(f, ast.Attribute) and isinstance(f.value, ast.Name) \
                 and f.value.id == "self" and cls is not None:
             for h in self.helpers.values():
@@ -474,6 +533,50 @@ class Inliner:
                         h.name == f.attr:
                     return h
         return None
+
+    def _foreign(self, target):
+        """Helper for a function of another module of the package that the
+        reference does not know (``target``: absolute dotted name), when its
+        body can be moved here: every global it uses is importable into
+        this module under the same name."""
+        if not target or "." not in target:
+            return None
+        if target in self.foreign_helpers:
+            return self.foreign_helpers[target]
+        mod, _, name = target.rpartition(".")
+        fm = self.foreign.get(mod)
+        if fm is None or name not in fm["helpers"]:
+            return None
+        node = copy.deepcopy(fm["helpers"][name])
+        h = Helper(target, node, ("foreign", mod))
+        need = {}
+        if h.ok:
+            import builtins as _b
+            local = set(h.params) | set(_stored_names(node.body)) | \
+                _comp_bound(node.body)
+            for n in ast.walk(node):
+                if isinstance(n, ast.Name) and isinstance(n.ctx, ast.Load) \
+                        and n.id not in local and not hasattr(_b, n.id):
+                    g = n.id
+                    if g in fm["defs"]:
+                        tgt = f"{mod}.{g}"
+                    elif g in fm["imports"]:
+                        tgt = fm["imports"][g]
+                    else:
+                        h.ok = False
+                        break
+                    have = self.imports.get(g)
+                    if g in self.bindings or (have is not None
+                                              and have != tgt):
+                        # the name means something else here
+                        h.ok = False
+                        break
+                    if have is None:
+                        need[g] = tgt
+        h.needs = need
+        self.foreign_helpers[target] = h
+        self.helpers[id(node)] = h
+        return h
 
     def _bind(self, h, call):
         """param -> actual expr (None when the call does not fit)"""
@@ -657,6 +760,7 @@ class Inliner:
                             ast.copy_location(p, st)
                             new = [p]
                         h.inlined += 1
+                        self._note_imports(h)
                         self.applied.append((h.q, getattr(
                             caller, "name", "?"), call.lineno))
                         # the inlined statements may call helpers again
@@ -667,6 +771,11 @@ class Inliner:
                 self._rewrite_exprs(st, chain, cls)
                 out.append(st)
         return out
+
+    def _note_imports(self, h):
+        for g, tgt in getattr(h, "needs", {}).items():
+            self.added_imports[g] = tgt
+            self.imports[g] = tgt
 
     # ---- statement helpers called inside an expression
     def _hoist_nested(self, st, chain, cls):
@@ -935,6 +1044,7 @@ class Inliner:
                     e = me._instantiate_expr(h, node, caller)
                     if e is not None:
                         h.inlined += 1
+                        me._note_imports(h)
                         me.applied.append((h.q, getattr(
                             caller, "name", "?"), node.lineno))
                         return e
@@ -952,7 +1062,8 @@ class Inliner:
                                     else v for v in val])
 
     def run(self):
-        if not any(h.ok for h in self.helpers.values()):
+        if not any(h.ok for h in self.helpers.values()) and not any(
+                fm["helpers"] for fm in self.foreign.values()):
             return []
         # callers: every function of the module, innermost handled with its
         # chain of enclosing functions
@@ -981,6 +1092,27 @@ class Inliner:
             if len(self.applied) == before:
                 break
         self._remove_dead()
+        # globals of inlined foreign helpers become imports of this module
+        new = []
+        for g, tgt in sorted(self.added_imports.items()):
+            mod, _, name = tgt.rpartition(".")
+            if mod:
+                new.append(ast.ImportFrom(
+                    module=mod, names=[ast.alias(
+                        name=name, asname=None if name == g else g)],
+                    level=0))
+            else:
+                new.append(ast.Import(names=[ast.alias(
+                    name=tgt, asname=None if tgt == g else g)]))
+        if new:
+            i = 0
+            while i < len(self.tree.body) and (
+                    (isinstance(self.tree.body[i], ast.Expr) and isinstance(
+                        self.tree.body[i].value, ast.Constant))
+                    or (isinstance(self.tree.body[i], ast.ImportFrom)
+                        and self.tree.body[i].module == "__future__")):
+                i += 1
+            self.tree.body[i:i] = new
         ast.fix_missing_locations(self.tree)
         return self.applied
 
@@ -1002,7 +1134,7 @@ class Inliner:
 
     def _remove_dead(self):
         for h in self.helpers.values():
-            if not h.inlined:
+            if not h.inlined or h.owner[0] == "foreign":
                 continue
             private = h.name.startswith("_") or h.owner[0] == "func"
             if not private or self._remaining_refs(h):
@@ -1026,9 +1158,30 @@ class Inliner:
                 h.removed = True
 
 
-def inline_unknown_helpers(tree, modname, known):
+def inline_unknown_helpers(tree, modname, known, foreign=None,
+                           is_pkg=False):
     """Inline in place; returns [(helper qualname, caller, line)]."""
-    return Inliner(tree, modname, known).run()
+    return Inliner(tree, modname, known, foreign=foreign,
+                   is_pkg=is_pkg).run()
+
+
+def foreign_table(sources, known):
+    """{module name: {'helpers': {name: FunctionDef}, 'defs': set of
+    module-level names, 'imports': {local: absolute target}}} for every
+    module of the package, from (module name, is_pkg, parsed tree) triples:
+    the module-level functions the reference does not know are candidates
+    for being inlined into *other* modules."""
+    out = {}
+    for modname, is_pkg, tree in sources:
+        helpers = {}
+        for st in tree.body:
+            if isinstance(st, ast.FunctionDef) and \
+                    f"{modname}.{st.name}" not in known:
+                helpers[st.name] = st
+        out[modname] = {"helpers": helpers,
+                        "defs": set(_module_bindings(tree)),
+                        "imports": _imports(tree, modname, is_pkg)}
+    return out
 
 
 def inline_nested_closures(fnode):
